@@ -3,6 +3,7 @@ package main
 // Per-path symbolic state: decisions, path condition, cached model, branch/assume/assert.
 
 import (
+	"os"
 	"fmt"
 	"golang.org/x/tools/go/ssa"
 	"math/big"
@@ -116,6 +117,17 @@ func (i *interpreter) addPC(c *Term) {
 	}
 	i.path.pc = append(i.path.pc, c)
 	i.solver.Assert(c)
+	if os.Getenv("GOSYM_PARANOID") != "" {
+		if res, _ := i.solver.Check(false); res == "unsat" {
+			fmt.Fprintf(os.Stderr, "PARANOID: pc unsat after adding %s\n  decisions=%v pos=%d prefix=%v modelnil=%v\n", c, i.path.decisions, i.path.pos, i.path.prefix, i.path.model == nil)
+			if i.path.model != nil {
+				for _, q := range i.path.pc {
+					fmt.Fprintf(os.Stderr, "   pc %s = %v\n", q, Eval(q, i.path.model, map[int]*big.Int{}))
+				}
+			}
+			panic(engineAbort{abUnsupported, "paranoid"})
+		}
+	}
 }
 
 func (i *interpreter) recordDecision(d int, label string) {
@@ -199,7 +211,7 @@ func (i *interpreter) branch(c *Term) bool {
 		i.addPC(c)
 	} else {
 		i.recordDecision(0, "")
-		i.addPC(other)
+		i.addPC(f.Not(c))
 	}
 	if !firstKnown {
 		p.invalidateModel()
